@@ -246,8 +246,8 @@ def parts(tier):
             name="scene",
             evaluate=evaluate,
             strategy=lambda: strategy(16 if tier == "quick" else 40),
-            budget={"quick": 400, "thorough": 8000},
-            min_nontrivial={"quick": 60, "thorough": 1500},
+            budget={"quick": 400, "thorough": 40000},
+            min_nontrivial={"quick": 60, "thorough": 8000},
             summarize=summarize,
         )
     ]
